@@ -148,9 +148,13 @@ CLAIMED["C06"] = dict(
               "use, expiry boundary, count enters exactly one node score, context isolation) and, from the optimality theorem of C02, "
               "that any two states of the learned counts give the same untruncated set of candidate texts + differential runs at "
               "library and server level (Verif.Dump, injected clock around the expiry boundary, never-issued candidate ids)",
-    text="Nine theorems kernel-checked on the model, among them C06_same_untruncated_set (learning only re-ranks: lattice, previous "
+    text="Theorems kernel-checked on the model, among them C06_update_exact / C06_confirmation_counts / C06_confirm_exactly_one (a "
+         "confirmation raises exactly the count filed under (context of the session, independent word) by one, leaves every count not due "
+         "for expiry as it was and drops exactly the counts all of whose entries are older than three days), C06_candidate_id_exact, "
+         "C06_path_score and C06_same_untruncated_set (learning only re-ranks: lattice, previous "
          "relation and connectability of a path do not depend on the counts); re-ranking-only and score-rise are also checked on the "
-         "implementation's own edge/node scores for every generated case; exact count changes per confirmation are checked on the "
+         "implementation's own edge/node scores for every generated case, also after the count table was serialised and read back "
+         "and after counts were raised between two searches in one context; exact count changes per confirmation are checked on the "
          "real server.",
     note="The per-path score rise (count x occurrences) is proved per node (C06_node_score) and checked per path by the oracle. "
          + SRV_NOTE, design="5/C06")
